@@ -22,6 +22,7 @@ RULE = (
     "moved code using names imported in 4 styles and optionally a global of its source; actions MoveGlobal / MoveModule / "
     "ModuleToPackage / Rename(module) / MoveMethod; destinations legal by construction (acyclic import graph, no name clash); "
     "non-trivial = accepted move with >= 2 clients in different import styles or a relative importer; distinct by case hash"
+    "; further shapes: package sibling named like the destination, two import statements for the moved module, a three-level destination, a namesake module imported next to the moved one"
 )
 ASSUMPTIONS = [
     "a destination that would close an import cycle is an illegal request and is never asked",
